@@ -117,7 +117,16 @@ func genWorld(t *core.Tape, st *core.Stats) *c16world {
 	take := func(typ, name string) { taken[typ+"\x00"+name] = true }
 
 	stop := t.Range(2, 9)
-	for i := 0; i < 10 && t.More(stop); i++ {
+	maxRels := 10
+
+	// now and then a schema with a few dozen relationships (whatever the library does
+	// differently for long lists — e.g. the sort algorithm — is on its other side)
+	if t.Bool(1, 10) {
+		maxRels, stop = 45, t.Range(25, 60)
+		st.Inc("probe:world-with-dozens-of-relationships")
+	}
+
+	for i := 0; i < maxRels && t.More(stop); i++ {
 		a := w.types[t.Draw(len(w.types))]
 		b := w.types[t.Draw(len(w.types))]
 		na := names[t.Draw(len(names))]
